@@ -99,7 +99,7 @@ def _ev(text, env):
 
 
 def native_check(c: Contract, values: dict) -> NativeResult:
-    fn = REG.resolve_function(c.name)
+    fn = REG.resolve_function(c.target)
     try:
         pre = {k: copy.deepcopy(v) for k, v in values.items()}
     except Exception:
